@@ -401,3 +401,24 @@ Definition prune (t : tdata) (start : list Z) (radius : Z) : res tdata :=
   end).
 
 Definition matrix_eqb (a b : matrix) : bool := list_eqb zrow_eqb a b.
+
+(* prune_rc(sample, radius):
+     rc_edge_idx = (sample.edge_attr[:, 0] != sample.edge_attr[:, 1]).nonzero().squeeze()
+     rc_node_idx = sample.edge_index[0, rc_edge_idx].unique()
+     return prune(sample, rc_node_idx, radius=radius)
+   Modelled for samples that carry >= 1 edge column with two-column edge attributes (anything else raises
+   NotImplementedError / AttributeError before any work: Unmodelled). *)
+Definition rc_col (c : (Z * Z) * list Z) : bool := negb (nth 0 (snd c) 0 =? nth 1 (snd c) 0).
+
+Definition rc_start_nodes (t : tdata) : res (list Z) :=
+  match t_ea t with
+  | Some ((_ :: _) as ea) =>
+      if forallb (fun r : list Z => Nat.eqb (List.length r) 2) ea && Nat.eqb (List.length ea) (List.length (t_ei t))
+      then Ok (unique_sorted (map (fun c : (Z * Z) * list Z => fst (fst c)) (filter rc_col (combine (t_ei t) ea))))
+      else Err Unmodelled
+  | _ => Err Unmodelled
+  end.
+
+Definition prune_rc (t : tdata) (radius : Z) : res tdata :=
+  bind (rc_start_nodes t) (fun st => prune t st radius).
+
